@@ -27,7 +27,7 @@ PY = "/venv/bin/python"
 CSRC = ["blobs.c", "cdiffraction.c", "cimaged11utils.c", "closest.c", "connectedpixels.c",
         "darkflat.c", "localmaxlabel.c", "sparse_image.c", "splat.c"]
 ENGINE_C = ["vrt.c", "shims.c"]
-KEEP = 3  # cache entries kept
+KEEP = 6  # cache entries kept (entries younger than 30 min are never pruned: concurrent runs)
 
 
 def _files():
@@ -175,6 +175,9 @@ def ensure(verbose=False):
                     if os.path.isdir(os.path.join(CACHE, d)) and d != h]
             ents.sort(key=lambda d: os.path.getmtime(os.path.join(d, "OK")) if os.path.exists(os.path.join(d, "OK")) else 0)
             for d in ents[:-(KEEP - 1)] if KEEP > 1 else ents:
+                okf = os.path.join(d, "OK")
+                if os.path.exists(okf) and time.time() - os.path.getmtime(okf) < 1800:
+                    continue
                 shutil.rmtree(d, ignore_errors=True)
     return root
 
